@@ -46,6 +46,8 @@ def run_case(case, own, probe=False):
         clause = EXC_CLAUSE.get(own)
         if own == 'C06' and not isinstance(e, AssertionError):
             clause = None
+        if own == 'C15' and case.get('trace'):
+            clause = 'C15.e'   # an enabled trace must list the executed events, not crash
         if clause:
             v = Violation(clause, 'exception escaped simulate(): ' + msg, step=f.step_no,
                           time=getattr(f.env, 'now', None),
